@@ -12,7 +12,16 @@ The partitioner turns these into `all_preds` of the topological sort; pairs (h, 
 "enemies" (never in one subgraph).  `pos` below is the position of a node's subgraph in the emitted order.
 
 Execution (one tick): the state after its producers, then closures in emitted order, then the pipe consumer.
+
+Finding F25: the pairs (borrower, pipe consumer) are ordering edges but were NOT enemies, so a borrower whose output
+flows into the pipe consumer of the borrowed handoff (`joined` below) could be merged into the consumer's subgraph —
+unless a closure of a later access group exists (then the merge would close a cycle and `try_merge` refuses it).  A
+subgraph `take()`s / drains all of its receive handoffs before any of its operators runs
+(`meta_graph.rs`, `recv_port_code`), so such a borrower evaluates `#st` on the emptied slot: `optional()` reads `None`,
+`singleton()` panics in `as_ref().unwrap()`, `handoff()` does not compile.  `Gen.borrowerConsumerEnemies` (re-extracted
+from flat_to_partitioned.rs on every run) says whether the current source makes these pairs enemies.
 -/
+import HvTick.Gen.RefEnemies
 namespace HvTick.Refs
 
 abbrev Node := Nat
@@ -61,11 +70,15 @@ inductive Op
 structure Closure where
   group : Option Nat
   op : Op
+  /-- the closure's output flows into the pipe consumer of the referenced state (`-> [1]cons`) -/
+  joined : Bool := false
   deriving DecidableEq, Repr
 
 inductive State
   | single (v : Int)
   | vec (b : List Int)
+  /-- `optional()` slot -/
+  | opt (v : Option Int)
   deriving DecidableEq, Repr
 
 def sum : List Int → Int
@@ -82,8 +95,11 @@ def applyOp : Op → State → State × Option (Nat × Int)
   | .mul k, .single v => (.single (v * k), none)
   | .push k, .vec b => (.vec (b ++ [k]), none)
   | .retain k, .vec b => (.vec (b.filter fun y => y % k != 0), none)
+  | .add k, .opt (some v) => (.opt (some (v + k)), none)
+  | .mul k, .opt (some v) => (.opt (some (v * k)), none)
   | .read tap, .single v => (.single v, some (tap, v))
   | .read tap, .vec b => (.vec b, some (tap, (b.length : Int) * 1000 + sum b))
+  | .read tap, .opt v => (.opt v, some (tap, v.getD (-1)))
   | _, s => (s, none)
 
 /-- a closure runs for all `n` of its items before the next one starts -/
@@ -115,16 +131,91 @@ def sortByGroup : List Closure → List Closure
 def consumerRecords : State → List (Nat × Int)
   | .single v => [(99, v)]
   | .vec b => b.map fun v => (99, v)
+  | .opt (some v) => [(99, v)]
+  | .opt none => []
+
+inductive Kind
+  | single (init : Int)
+  | vec
+  | opt
+  deriving DecidableEq, Repr
 
 structure Prog where
-  vecKind : Bool
-  init : Int
+  kind : Kind
   closures : List Closure
 
-/-- one tick: producers (`init + Σ sent` / the sent items), closures by group, consumer -/
-def tick (p : Prog) (sent : List Int) (n : Nat) : List (Nat × Int) :=
-  let s0 : State := if p.vecKind then .vec sent else .single (p.init + sum sent)
-  let r := runSchedule n (sortByGroup p.closures) s0
+/-- the state after the producers of the tick: `fold::<'tick>(init, +)`, the sent items, `reduce::<'tick>(+)` -/
+def initState (k : Kind) (sent : List Int) : State :=
+  match k with
+  | .single i => .single (i + sum sent)
+  | .vec => .vec sent
+  | .opt => .opt (if sent.isEmpty then none else some (sum sent))
+
+/-- **the property's schedule**: producers, closures by group (each for all `n` items), then the pipe consumer -/
+def tickSpec (p : Prog) (sent : List Int) (n : Nat) : List (Nat × Int) :=
+  let r := runSchedule n (sortByGroup p.closures) (initState p.kind sent)
   r.2 ++ consumerRecords r.1
+
+/-- does the partitioner put closure `c` into the pipe consumer's subgraph?  Only without the (borrower, consumer)
+enemy pairs, only a closure wired into the consumer, and only if no closure of a strictly later group exists (the
+merged subgraph would have to run both before and after that one: `try_merge`'s cycle check refuses). -/
+def merged (enemies : Bool) (cs : List Closure) (c : Closure) : Bool :=
+  !enemies && c.joined && cs.all (fun d => decide (key d.group ≤ key c.group))
+
+/-- what the slot holds after the consumer subgraph's receive code ran (`buf.take()` / `drain(..)`);
+`none`: a `singleton()` slot — every access is `as_ref().unwrap()` / `as_mut().unwrap()` on `None` and panics -/
+def drained : State → Option State
+  | .single _ => none
+  | .vec _ => some (.vec [])
+  | .opt _ => some (.opt none)
+
+/-- one tick of the emitted code, given whether (borrower, pipe consumer) pairs are enemies; `none` = the tick panics.
+Closures merged into the consumer's subgraph run after its receive code emptied the slot; what the consumer
+receives was taken before they ran. -/
+def tickWith (enemies : Bool) (p : Prog) (sent : List Int) (n : Nat) : Option (List (Nat × Int)) :=
+  let sorted := sortByGroup p.closures
+  let early := sorted.filter (fun c => !merged enemies p.closures c)
+  let late := sorted.filter (merged enemies p.closures)
+  let r := runSchedule n early (initState p.kind sent)
+  let cons := consumerRecords r.1
+  if late.isEmpty || n == 0 then some (r.2 ++ cons)
+  else match drained r.1 with
+    | none => none
+    | some sd => some (r.2 ++ (runSchedule n late sd).2 ++ cons)
+
+/-- the `Target` of a corpus program: handoff node 0, producer 1, pipe consumer 2, closure `i` is node `10 + i` -/
+def targetOf (cs : List Closure) : Target :=
+  ⟨0, [1], [2], (List.range cs.length).zip cs |>.map fun x => ⟨10 + x.1, x.2.group, x.2.op.isMut⟩⟩
+
+def insertKey (k : Nat) : List (Nat × Nat) → List (Nat × Nat)
+  | [] => [(k, 1)]
+  | (j, n) :: r => if k < j then (k, 1) :: (j, n) :: r else if k = j then (j, n + 1) :: r else (j, n) :: insertKey k r
+
+/-- `node_handoff_reference_groups` of one target: BTreeMap key ↦ number of references, ascending -/
+def groupSizes (cs : List Closure) : List (Nat × Nat) :=
+  cs.foldl (fun acc c => insertKey (key c.group) acc) []
+
+/-- the code that exists -/
+def tick (p : Prog) (sent : List Int) (n : Nat) : Option (List (Nat × Int)) :=
+  tickWith Gen.borrowerConsumerEnemies p sent n
+
+/-! ### Hydro side: `hydro_lang/src/handoff_ref.rs` `register_handoff_ref` + `AccessCounter::next_group`
+
+Every capture of a `by_ref()` / `by_mut()` handle inside a `q!()` closure calls `access_counter.next_group(is_mut)` on
+the counter of the referenced node, in staging (code) order, and is emitted as `let x = #{group} [mut] ident;`
+(`ClosureExpr::emit_tokens`), i.e. always with an explicit access group.
+  `next_group(is_mut)`:  is_mut  ↦  c = count + 1; count := c + 1; group c        else  group count (count unchanged) -/
+namespace Hydro
+
+/-- (new counter, assigned group) -/
+def nextGroup (count : Nat) (isMut : Bool) : Nat × Nat :=
+  if isMut then (count + 2, count + 1) else (count, count)
+
+/-- groups assigned to the captures of one referenced node, in code order (`true` = `by_mut`) -/
+def assign : Nat → List Bool → List Nat
+  | _, [] => []
+  | c, m :: ms => (nextGroup c m).2 :: assign (nextGroup c m).1 ms
+
+end Hydro
 
 end HvTick.Refs
